@@ -221,6 +221,7 @@ def run(ctx):
             else:
                 ctx.ob(name, None, "model reports '%s' but the compiled crate does not show it: %s" % (what, str(real)[:200]))
     mask_parameter_bits(ctx, S, q, rp)
+    enum_parameter_values(ctx, S, q, rp)
     rp.close()
     ctx.validated = rp.count
     # header on the compiled code
@@ -451,6 +452,66 @@ def replay(S, rp, e, r, off, model, role):
 
 def le(w):
     return "".join("%02x" % ((w >> (8 * i)) & 0xff) for i in range(4))
+
+
+def enum_parameter_values(ctx, S, q, rp):
+    """Each declared enumerant of each parameterised value enum (Decoration, ExecutionMode, ...): the parameter parser run on
+    exactly that enumerant delivers the operand variants the pinned grammar lists for it and consumes one word per one-word
+    parameter; an enumerant without parameters consumes nothing."""
+    snap = json.load(open(os.path.join(VERIF, "reference", "snapshot.json")))["operand_params"]["parse_arguments"]
+    enums, _ = tables.spirv_decls()
+    for fname, old in sorted(snap.items()):
+        if old["form"] != "enum":
+            continue
+        kind = old["kind"]
+        c = [x for x in S.mf.find(fname) if "closure" not in x[0]]
+        if len(c) != 1 or kind not in enums:
+            ctx.ob("enum-args/%s" % fname, None, "%d candidates" % len(c))
+            continue
+        fn = S.mf.parse_item(c[0][2])
+        want = {}
+        for names, ops_ in old["entries"]:
+            for nm in names:
+                want[nm] = [o[0] for o in ops_]
+        byval = {}
+        for nm, v in enums[kind]["variants"]:
+            byval.setdefault(v, []).append(nm)
+        for al, tgt in enums[kind].get("aliases", []):
+            for v, nms in byval.items():
+                if tgt in nms:
+                    nms.append(al)
+        nbad = 0
+        for v, nms in sorted(byval.items()):
+            exp = []
+            for nm in nms:
+                if nm in want:
+                    exp = want[nm]
+            eng = S.engine(loop_bound=6)
+            off = z3.BitVecVal(40, 64)
+            mem = {("h", "p"): S.parser_value(off, None, z3.BitVecVal(1, 64))}
+            try:
+                res = eng.run(fn, [sym.Ref(("h", "p"), (), True), z3.BitVecVal(v, 32)], mem=mem, pc=[z3.ULE(S.LEN, 1 << 24)])
+            except mir.Unsupported as ex:
+                ctx.ob("enum-args/%s/%s" % (kind, nms[0]), None, "not encodable: %s" % str(ex)[:200])
+                continue
+            oks = [r for r in res if r.status == "return" and r.value.variant == "Ok"]
+            shapes = set(tuple(o.variant for o in r.value.fields[0].items) for r in oks)
+            good = shapes == {tuple(exp)}
+            if good and "LiteralString" not in exp:
+                for r in oks:
+                    consumed = z3.simplify(r.mem[("h", "p")].fields[0].fields[1] - off)
+                    good = good and z3.is_bv_value(consumed) and consumed.as_long() == 4 * len(exp)
+            ctx.ob("enum-args/%s/%s" % (kind, nms[0]), True if good else False, None if good else "delivers %s, pinned grammar lists %s" % (sorted(shapes), exp))
+            if not good:
+                real = rp.ask("operand_params %s %d" % (kind, v))
+                got = [x.split("(")[0] for x in (real.get("parsed") or [])] if isinstance(real.get("parsed"), list) else real.get("parsed")
+                if got == exp:
+                    ctx.ob("enum-args/%s/%s/native" % (kind, nms[0]), None, "model-only deviation; the compiled crate delivers %s" % (got,))
+                    continue
+                nbad += 1
+                if nbad <= 3:
+                    ctx.violation("parser/enumerant-parameters/%s/%s" % (kind, nms[0]), "%s::%s: parameter parser delivers %s, the grammar lists %s" % (
+                        kind, nms[0], real.get("parsed"), exp), {"cmd": "operand_params %s %d" % (kind, v), "real": real})
 
 
 def mask_parameter_bits(ctx, S, q, rp):
